@@ -224,7 +224,8 @@ impl EditState {
         };
 
         let base_layer = &mut self.buffer.layers[layer_idx - 1];
-        let area = layer.get_rectangle() + base_layer.get_offset();
+        // the stamped area in coordinates of the base layer
+        let area = layer.get_rectangle() - base_layer.get_offset();
         let old_layer = Layer::from_layer(base_layer, area);
 
         for x in 0..layer.get_width() as u32 {
